@@ -29,10 +29,12 @@ def mods():
     return _M
 
 
-def eval_case(cid: str, F: list, D: list, perms: list, dtype=np.int64) -> dict | None:
+def eval_case(cid: str, F: list, D: list, perms: list, dtype=np.int64, user_lb=None, user_ub=None,
+              inst=None) -> dict | None:
     m = mods()
     n = len(F)
-    inst = m["Instance"](np.array(D, dtype=dtype), np.array(F, dtype=dtype))
+    if inst is None:
+        inst = m["Instance"](np.array(D, dtype=dtype), np.array(F, dtype=dtype), user_lb, user_ub)
     obj = m["Obj"](inst)
 
     def mat(a):
@@ -40,6 +42,10 @@ def eval_case(cid: str, F: list, D: list, perms: list, dtype=np.int64) -> dict |
     rec = {"id": cid, "kind": "eval", "n": n, "F": [[big(v) for v in r] for r in F],
            "D": [[big(v) for v in r] for r in D], "sF": mat(inst.flows), "sD": mat(inst.distances),
            "dtype": str(inst.flows.dtype), "perms": []}
+    if user_lb is not None:
+        rec["ulb"] = big(user_lb)     # bounds handed to the constructor by the caller (valid ones: TLC re-checks)
+    if user_ub is not None:
+        rec["uub"] = big(user_ub)
     lo, hi = int(obj.lower_bound()), int(obj.upper_bound())
     if lo < 0 or hi < 0:      # outside the domain of the specification (sums of naturals)
         rec["neg_bounds"] = [lo, hi]
@@ -206,6 +212,26 @@ def run(prop: str, tier: str, seed: int) -> int:
             cases.append(parse_case(f"text-{k}", n, F, D, breaks, blanks))
             rep.family("random-wrappings", 1, 1)
             rep.nontrivial += 1
+    # ---- caller-supplied bounds: the constructor combines them with the rearrangement bounds
+    n_u = {"quick": 120, "thorough": 900}[tier]
+    for k in range(n_u):
+        n = rng.randint(2, 5)
+        target = rng.choice([60, 127, 128, 255, 256, 1000, 32767, 32768, 65536, 2 ** 31, 10 ** 9])
+        F, D = scaled_pair(rng, n, target)
+        perms = [list(p) for p in itertools.permutations(range(n))]
+        vals = [sum(F[i][j] * D[p[i]][p[j]] for i in range(n) for j in range(n)) for p in perms]
+        lo, hi = min(vals), max(vals)
+        kind = rng.choice(["both", "both", "lower", "upper"])
+        ulb = max(0, lo - rng.choice([0, 0, 1, rng.randint(0, max(1, lo))])) if kind != "upper" else None
+        uub = hi + rng.choice([0, 0, 1, rng.randint(0, max(1, hi))]) if kind != "lower" else None
+        try:
+            cases.append(eval_case(f"userbounds-{k}", F, D, perms, user_lb=ulb, user_ub=uub))
+            rep.family("caller-supplied-bounds", len(perms), len(perms))
+            rep.nontrivial += len(perms)
+        except (ValueError, TypeError) as ex:
+            rep.violations.append(core.Verdict(f"userbounds-{k}", "constructor-rejects-valid-bounds",
+                                               {"F": F, "D": D, "lower_bound": ulb, "upper_bound": uub,
+                                                "true_min": lo, "true_max": hi, "error": str(ex)[:200]}))
     I = mods()["Instance"]
     for nm in (list(I.list_resources())[:: (12 if tier == "quick" else 2)]):
         inst = I.from_resource(nm)
@@ -219,7 +245,8 @@ def run(prop: str, tier: str, seed: int) -> int:
             p = list(range(n))
             rng.shuffle(p)
             perms.append(p)
-        cases.append(eval_case(f"shipped-{nm}", F, D, perms))
+        # the shipped instance itself: its bounds include the published optimum / best lower bound
+        cases.append(eval_case(f"shipped-{nm}", F, D, perms, inst=inst))
         rep.family("shipped-matrices", len(perms), len(perms))
     for c in cases:
         if "neg_bounds" in c:
@@ -237,6 +264,14 @@ def run(prop: str, tier: str, seed: int) -> int:
 
 
 def replay(prop: str, case: dict) -> dict:
+    if "kind" not in case:       # a constructor rejection: hand the same matrices (and bounds) to the constructor again
+        try:
+            mods()["Instance"](np.array(case["D"], dtype=np.int64), np.array(case["F"], dtype=np.int64),
+                               case.get("lower_bound"), case.get("upper_bound"))
+            return {"clause": "ok", "case": case}
+        except (ValueError, TypeError) as ex:
+            return {"clause": "constructor-rejects-valid-" + ("bounds" if "true_min" in case else "matrices"),
+                    "case": {**case, "error": str(ex)[:200]}}
     if case["kind"] == "parse":
         breaks = set()
         k = 0
@@ -248,6 +283,11 @@ def replay(prop: str, case: dict) -> dict:
     else:
         F = [[core.unbig(v) for v in r] for r in case["F"]]
         D = [[core.unbig(v) for v in r] for r in case["D"]]
-        rec = eval_case("replay", F, D, [[q - 1 for q in e["p"]] for e in case["perms"]])
+        inst = None
+        if case["id"].startswith("shipped-"):
+            inst = mods()["Instance"].from_resource(case["id"][len("shipped-"):])
+        rec = eval_case("replay", F, D, [[q - 1 for q in e["p"]] for e in case["perms"]],
+                        user_lb=core.unbig(case["ulb"]) if "ulb" in case else None,
+                        user_ub=core.unbig(case["uub"]) if "uub" in case else None, inst=inst)
     vs = core.validate("qap/Trace_QAP", [rec])
     return {"clause": vs["replay"], "case": rec}
